@@ -365,6 +365,22 @@ fn run_cursor<C: AnsCombo>(segs: &[Vec<&str>], decoder: bool) -> String {
                     Err(()) => "err".into(),
                 },
                 ["empty"] => format!("{}", coder.is_empty()),
+                ["getc"] => match coder.get_compressed() {
+                    Ok(g) => {
+                        let l = g.pos();
+                        show_list(g.buf()[..l].iter().map(|&w| to_u128(w)))
+                    }
+                    Err(_) => "full".into(),
+                },
+                ["getb"] => match coder.get_binary() {
+                    Ok(g) => {
+                        let l = g.pos();
+                        show_list(g.buf()[..l].iter().map(|&w| to_u128(w)))
+                    }
+                    Err(CoderError::Backend(_)) => "full".into(),
+                    Err(CoderError::Frontend(())) => "err".into(),
+                },
+                ["nw"] => hex(coder.num_words() as u128),
                 _ => return None,
             })
         });
@@ -748,13 +764,13 @@ fn gen_cursor_line(rng: &mut Rng, w: u32, s: u32, bps: &[(u32, Vec<u32>)]) -> St
             }
             7 => format!("encnone {:x} {:x}", b, p),
             8..=9 => format!("dec {:x} {:x} {}", b, p, show_list(cdf.clone())),
-            10 => "pos".into(),
+            10 => (*rng.pick(&["pos", "getc", "getc", "getb", "nw"])).into(),
             _ => "raw".into(),
         };
         line.push_str(" | ");
         line.push_str(&op);
     }
-    line.push_str(" | raw");
+    line.push_str(" | getc | raw");
     line
 }
 
@@ -1177,6 +1193,17 @@ fn oracle_combo<C: AnsCombo>(rng: &mut Rng, w: u32, s: u32, bps: &[(u32, Vec<u32
                     if failures >= 3 {
                         break;
                     }
+                }
+            }
+            // C08 on a bounded backend: an inspection (successful or refused) leaves the coder intact
+            {
+                let before = (enc.pos(), enc.bulk().buf()[..enc.pos().0].to_vec());
+                let r = enc.get_compressed().map(|g| g.pos()).ok();
+                let after = (enc.pos(), enc.bulk().buf()[..enc.pos().0].to_vec());
+                rep.eval("C08");
+                rep.count(if r.is_some() { "C08.bounded_view_ok" } else { "C08.bounded_view_refused" });
+                if before != after {
+                    rep.fail("C08", format!("{} | getc | raw => get_compressed() {} changed the coder from {:?} to {:?}", d9, if r.is_some() { "then drop" } else { "refused (backend full)" }, before.0, after.0));
                 }
             }
             // everything pushed before (and between) the failures still pops
